@@ -88,10 +88,43 @@ class Engine:
 
 
 # ---------------------------------------------------------------------- case generation (synthetic grammars)
-def gen_case(rng, n_sent=1, nbest=None, family=None, max_n=6, sparse=False, head_left=None, beam=False, mixed_heads=False):
+def extreme_rows(rng, case, mode=None):
+    """rows as the category dictionary leaves them (entries flattened to -1e33) or deep in the negative range, where
+    float exp() underflows: the best tag between -100 and -93, the others at -1e33 / -130 / -150 (exp == 0 exactly in
+    binary32 and below beta x best for every beta >= 1e-5, so that float rounding cannot blur what the beam admits)"""
+    out = []
+    for words, tag, dep in case['sentences']:
+        tag = tag.astype(np.float64)
+        n, T = tag.shape
+        for i in range(n):
+            r = rng.random()
+            m = mode or ('flat' if r < 0.5 else 'deep')
+            if rng.random() < 0.5:
+                continue
+            if m == 'flat':
+                keep = set(rng.sample(range(T), rng.randint(1, T)))
+                for j in range(T):
+                    if j not in keep:
+                        tag[i, j] = -10e+32
+            else:
+                best = rng.randrange(T)
+                for j in range(T):
+                    tag[i, j] = -rng.uniform(93, 100) if j == best else rng.choice((-10e+32, -150.0, -130.0))
+        out.append((words, tag.astype(np.float32), dep))
+    case['sentences'] = out
+    case['exact'] = False
+    return case
+
+
+def gen_case(rng, n_sent=1, nbest=None, family=None, max_n=6, sparse=False, head_left=None, beam=False, mixed_heads=False,
+             many_cats=False):
     ntags = rng.randint(2, 6)
     ncat = ntags + rng.randint(0, 4)
     dens = rng.choice((0.1, 0.2, 0.3)) if sparse else None
+    if many_cats:
+        # a large category table (ids far beyond the tag list), as in the real pipeline where rules and roots add hundreds
+        ncat = rng.randint(70, 140)
+        dens = rng.choice((0.05, 0.1, 0.2))
     g, hl = synth.random_grammar(rng, ncat, ntags, head_left=head_left, density=dens,
                                  max_results=2 if sparse else 3, mixed_heads=mixed_heads)
     cats = [synth.SCat(i) for i in range(ntags)]
@@ -236,6 +269,9 @@ def check_sentence(E, case, si, out, oracle_budget=40000, witness=None, nbest_re
         R.count('monitor:failure-legitimacy')
         if res[0].score != -math.inf:
             E.violation('score:placeholder-not-minus-inf', f'failure placeholder carries score {res[0].score!r}', wit)
+        if best_must is not None and not budget_hit and k >= 2:
+            E.violation('nbest:count', f'asked for {k} parses, got the failure placeholder although derivations exist '
+                        f'(best {best_must}) and only {pops} pops were made', wit)
         if best_must is not None and not budget_hit:
             E.violation('astar:failed-but-derivable',
                         f'sentence reported as failed after {pops} pops (< max_step {cfg["max_step"]}) although a rooted derivation '
